@@ -29,7 +29,7 @@ class C16(PropBase):
                     yield dict(directed=directed, removal=True, hist=h, family='int', functional=False, gattr=0)
 
     def n_random(self, tier):
-        return 600 if tier == 'quick' else 10000
+        return 600 if tier == 'quick' else 30000
 
     def random_cases(self, rnd, n):
         for _ in range(n):
